@@ -20,7 +20,7 @@ import (
 //   - MinIPCVersion / MaxIPCVersion; the command and error string constants;
 //   - how often client.version / client.didAuth are written in the whole file.
 
-func stringConsts(f *ast.File) map[string]string {
+func ipcConsts(f *ast.File) map[string]string {
 	out := map[string]string{}
 	for _, d := range f.Decls {
 		gd, ok := d.(*ast.GenDecl)
@@ -145,7 +145,7 @@ func genIpcGate(repo string) (string, error) {
 	if err != nil {
 		return "", err
 	}
-	consts := stringConsts(f)
+	consts := ipcConsts(f)
 	q := func(s string) string { return strconv.Quote(s) }
 
 	// ---- handleRequest
